@@ -35,6 +35,10 @@ CHECKS = {
    text="Each pattern form of entity_matching / match / select / match_any / match_all (scalar literal, membership, collection literal, nested match with same type / subclass / type only, nested match on a collection, existential and universal collection constraints on objects and ints, two constraints, select variants) is built through the public API and evaluated by the real match.py + engine code on symbolic data: attribute values and literals are unbounded z3 integers, collection membership is a bounded symbolic mask (with repeated elements), elements may be value-equal but distinct, the domain holds a foreign-typed element. Per path the solver decides that the result is exactly the set of domain elements of the type for which a direct Python predicate holds (and the stated multiplicity / consistency of selected parts).",
    note="0..2 (quick) / 0..3 (thorough) elements, pool of 2-3 inner objects, depth <= 2, elements of int collections bounded 0..2 (they are hashed by the engine). Trusted: z3, symx proxies, the per-pattern oracle predicates.",
    technique=SYMX),
+ "C10": dict(category="model_checking", design="DESIGN.md 4 C10",
+   text="(a) Every C01 query shape plus literals, predicates, symbolic functions, a rule tree and pattern matches is built with harness monitors armed (one-shot generator domains logging every element handed out, objects logging attribute reads / calls / truth tests): the log must be empty when construction returns. (b) With symbolic data and a symbolic number k of results pulled, the real engine's generators are stepped k times; per path the solver-explored data decides where the k-th result lies, and the check asserts that the k results are a prefix of a fresh identical query's results, that the outermost lazy domain was advanced exactly to the element producing the k-th result (no read-ahead), that nothing is consumed before the first next(), and the same for a second evaluation started after abandoning the first.",
+   note="<= 3 objects per domain (quick); strict no-read-ahead only for the outermost domain of left-to-right nested-loop shapes; inner domains only 'nothing before the first next()'. Trusted: z3, symx proxies, the monitors.",
+   technique=SYMX),
 }
 NA_REASON = "check not built yet (build in progress, see DESIGN.md section 9 for the build order)"
 NA = {}
